@@ -71,6 +71,107 @@ def describe(r: IntRangeExpr):
     return [vals, n, gets, toks, back]
 
 
+# ---------------------------------------------------------------- expressions too long to enumerate
+LIMIT = 2 ** 63          # a Python container holds fewer values than this: len() of anything longer cannot exist
+
+
+def zb(i: int) -> str:
+    """arbitrary-precision integer on the driver's wire"""
+    return ("b-" if i < 0 else "b") + bin(abs(i))[2:]
+
+
+def unzb(a):
+    return int(a[1:], 2)
+
+
+def big_parts(s: str):
+    """(a, b, step) per comma-separated part of a well-formed expression text, None when it is not that simple"""
+    out = []
+    for part in s.replace(" ", "").split(","):
+        import re as _re
+        m = _re.fullmatch(r"(-?\d+)(?:-(-?\d+)(?::(-?\d+))?)?", part)
+        if not m:
+            return None
+        a = int(m.group(1))
+        b = int(m.group(2)) if m.group(2) is not None else a
+        st = int(m.group(3)) if m.group(3) is not None else 1
+        out.append((a, b, st))
+    return out
+
+
+def big_indices(s: str):
+    """Indices worth looking at, chosen from the text alone (both sides get the same list; nothing depends on
+    the guess being right): around 0, around each cumulative part length, around the total, the same counted
+    from the end, and around the container limit."""
+    parts = big_parts(s) or []
+    cums, tot = [0], 0
+    for a, b, st in parts:
+        n = 0 if st == 0 else max(0, (b - a) // st + 1)
+        tot += n
+        cums.append(tot)
+    idx = set()
+    for c in cums:
+        for d in (-2, -1, 0, 1):
+            idx.add(c + d)
+            idx.add(c + d - tot)
+    for d in (-2, -1, 0, 1):
+        idx.add(-tot + d)
+        idx.add(LIMIT + d)
+        idx.add(-LIMIT + d)
+    idx.update([tot // 2, -(tot // 2), tot // 3])
+    return sorted(idx)
+
+
+def describe_big(r: IntRangeExpr, idx):
+    """len and r[i] at idx — or what went wrong with len"""
+    try:
+        n = len(r)
+    except BaseException as e:  # noqa: BLE001
+        return ["len-raises", type(e).__name__]
+    gets = []
+    for i in idx:
+        try:
+            gets.append(["ok", r[i]])
+        except BaseException as e:  # noqa: BLE001
+            gets.append(["raise", type(e).__name__])
+    return [n, gets]
+
+
+BIG_POINTS = [0, 1, 5, 2 ** 31, 2 ** 62 - 1, 2 ** 62, 2 ** 62 + 1, 2 ** 63 - 2, 2 ** 63 - 1, 2 ** 63, 2 ** 63 + 1, 2 ** 64 - 1, 2 ** 64, 10 ** 18, 10 ** 19, 3 * 2 ** 62]
+BIG_STEPS = [1, 1, 1, 2, 2, 3, 7, 2 ** 31, 2 ** 62, 2 ** 63]
+CORPUS_BIG = [
+    "1-9223372036854775807", "0-9223372036854775807", "0-9223372036854775806", "-9223372036854775808-2", "0-18446744073709551612:2",
+    "0-18446744073709551614:2", "0-4611686018427387903,4611686018427387905-9223372036854775808", "0-4611686018427387903,4611686018427387905-9223372036854775807",
+    "0-4611686018427387902,4611686018427387905-9223372036854775807", "1-4611686018427387904,-4611686018427387904--1", "1-4611686018427387904,-4611686018427387903--1",
+    "9223372036854775807-1:-1", "0-9223372036854775807:9223372036854775807", "0-3,10-9223372036854775000,-5--1",
+    "0-6148914691236517204,6148914691236517206-12297829382473034410:2,12297829382473034415", "18446744073709551616", "-18446744073709551616-18446744073709551616:18446744073709551616",
+]
+
+
+def rand_big(rng):
+    """1-3 ranges in ascending, disjoint position (sometimes written downwards or out of order) whose lengths
+    add up to something near the container limit"""
+    k = rng.choice([1, 1, 2, 2, 2, 3])
+    parts, lo = [], rng.choice([0, 1, -1, -(2 ** 62), -(2 ** 63), -(2 ** 63) - 1, -5])
+    budget = rng.choice([LIMIT - 1, LIMIT, LIMIT + 1, LIMIT - 2, LIMIT // 2, LIMIT + 2 ** 40, 2 * LIMIT, rng.randrange(1, 2 * LIMIT)])
+    for j in range(k):
+        st = rng.choice(BIG_STEPS)
+        n = budget if j == k - 1 else rng.choice([1, 2, budget // 2, budget // 3, budget - 1, rng.randrange(1, max(2, budget))])
+        n = max(1, n)
+        budget = max(1, budget - n)
+        hi = lo + (n - 1) * st + (rng.randrange(st) if st > 1 and rng.random() < 0.5 else 0)
+        if n == 1 and rng.random() < 0.5:
+            parts.append(str(lo))
+        elif rng.random() < 0.15:
+            parts.append(f"{hi - (hi - lo) % st}-{lo}:-{st}")
+        else:
+            parts.append(f"{lo}-{hi}" if st == 1 and rng.random() < 0.7 else f"{lo}-{hi}:{st}")
+        lo = hi + rng.choice([1, 2, 2, 3, st + 1, 2 ** 20])
+    if rng.random() < 0.3:
+        rng.shuffle(parts)
+    return ",".join(parts)
+
+
 # ---------------------------------------------------------------- generators of integer lists
 def small_lists(lo, hi, maxlen):
     dom = list(range(lo, hi + 1))
@@ -158,7 +259,8 @@ class C13(core.PropBase):
 
     # ------------------------------------------------------------ cases
     def corpus_cases(self):
-        return [{"k": "l", "vs": vs} for vs in CORPUS_LISTS] + [{"k": "s", "s": s} for s in CORPUS_STRS]
+        return ([{"k": "l", "vs": vs} for vs in CORPUS_LISTS] + [{"k": "s", "s": s} for s in CORPUS_STRS]
+                + [{"k": "b", "s": s} for s in CORPUS_BIG])
 
     def cases(self, tier, seed):
         rng = random.Random(seed * 104729 + 13)
@@ -183,6 +285,15 @@ class C13(core.PropBase):
             if rng.random() < 0.2:
                 s = c08.with_blanks(rng, s)
             yield {"k": "s", "s": s}
+        # 3b. expressions whose length is near or beyond what a container can hold: nothing is enumerated; len,
+        #     r[i] at boundary indices, the printed form and its re-parse are compared with the (unbounded) model
+        for a in BIG_POINTS:
+            for b in BIG_POINTS:
+                if a < b:
+                    yield {"k": "b", "s": f"{a}-{b}"}
+                    yield {"k": "b", "s": f"-{b}--{a}:2" if a else f"-{b}-0:2"}
+        for _ in range(20000 if thorough else 3000):
+            yield {"k": "b", "s": rand_big(rng)}
         # 4. str(from_list(random list)) fed back as an expression, and a few mutated expressions
         #    (c08.cap_digits bounds the digits per string: the extracted model of the shared Lexer.v doubles
         #     its running time with every digit that continues a number — a cost, not a semantic, issue;
@@ -199,7 +310,7 @@ class C13(core.PropBase):
                 + " over [-2,4] (exhaustive); random lists of 1-5 groups (runs of 2-6 values with step 1/2/3/5, or singletons; gaps that may continue a run; "
                 "duplicates; negative and large values; shuffled/reversed; 35% with integer strings); every single element a | a-b | a-b:s, a,b in [-6,6], s in [-3,3]; "
                 "sampled ordered pairs of elements; random 2-6 element expressions (adjacent/misaligned/overlapping, 20% with blanks); comma lists of random integers; mutated expressions. "
-                "Observed per object: list, len, r[i] for i in -len-2..len+1, tokens of str(r), list(from_str(str(r))). "
+                "expressions with lengths near and beyond 2**63 (pairs of boundary points; 1-3 random ranges whose lengths add up to about 2**63; observed without enumeration: len, r[i] at boundary indices, printed tokens, the same on the re-parse). Observed per object: list, len, r[i] for i in -len-2..len+1, tokens of str(r), list(from_str(str(r))). "
                 "distinct = by input; non-trivial = the implementation returned an object with at least 2 values")
 
     def exhaustive(self, tier):
@@ -213,17 +324,58 @@ class C13(core.PropBase):
     # ------------------------------------------------------------ the two sides
     def impl(self, case):
         try:
-            r = IntRangeExpr.from_str(case["s"]) if case["k"] == "s" else IntRangeExpr.from_list(case["vs"])
+            r = IntRangeExpr.from_str(case["s"]) if case["k"] in "sb" else IntRangeExpr.from_list(case["vs"])
         except BaseException as e:  # noqa: BLE001
             return ["raise", exn_family(e)]
+        if case["k"] == "b":
+            idx = big_indices(case["s"])
+            text = str(r)
+            try:
+                toks = lex_tokens(text)
+            except BaseException as e:  # noqa: BLE001
+                toks = ["raise", exn_family(e)]
+            try:
+                back = ["ok", describe_big(IntRangeExpr.from_str(text), idx)]
+            except BaseException as e:  # noqa: BLE001
+                back = ["raise", exn_family(e)]
+            return ["ok", [describe_big(r, idx), toks, back]]
         return ["ok", describe(r)]
 
     def requests(self, case):
+        if case["k"] == "b":
+            try:
+                toks = lex_tokens(case["s"])       # the model's lexer is exercised by the 's' cases
+            except BaseException:  # noqa: BLE001
+                return []
+            if any(isinstance(t, list) and t[0] == "?" for t in toks):
+                return []
+            return [["big", False, False, [[t[0], zb(t[1])] if isinstance(t, list) else t for t in toks],
+                     [zb(i) for i in big_indices(case["s"])]]]
         if case["k"] == "s":
             return [["from_str", False, False, core.cps(case["s"]), "auto"]]
         return [["from_list", False, False, [int(v) for v in case["vs"]], "auto"]]
 
     def model_obs(self, case, replies):
+        if case["k"] == "b":
+            if not replies:
+                return ["raise", "ExpressionError"]
+            r = replies[0]
+            if r[0] == "raise":
+                return ["raise", model_family(r[1])]
+            if r[0] != "ok":
+                return ["driver", r]
+
+            def obs(o):
+                return [unzb(o[0]), [["ok", unzb(g[1])] if g[0] == "ok" else ["raise", g[1]] for g in o[1]]]
+            o, toks, back = r[1]
+            o = obs(o)
+            if o[0] >= LIMIT:
+                # the unbounded model has the object; no Python object can (len() could not answer): the
+                # expression has to be refused, like every other expression there is no IntRangeExpr for
+                return ["raise", "ExpressionError"]
+            toks = [["P", unzb(t[1])] if isinstance(t, list) else t for t in toks]
+            back = ["ok", obs(back[1])] if back[0] == "ok" else ["raise", model_family(back[1])]
+            return ["ok", [o, toks, back]]
         r = replies[0]
         if r[0] == "raise":
             return ["raise", model_family(r[1])]
@@ -235,15 +387,20 @@ class C13(core.PropBase):
         return ["driver", r]
 
     def nontrivial(self, case):
+        if case["k"] == "b":
+            return True
         if case["k"] == "l":
             return len(set(int(v) for v in case["vs"])) >= 2
         s = case["s"]
         return "," in s or "-" in s.strip()[1:]
 
     def classify_case(self, case, obs):
-        kind = "from_list" if case["k"] == "l" else "from_str"
+        kind = "from_list" if case["k"] == "l" else "from_str" if case["k"] == "s" else "from_str:long"
         if obs[0] != "ok":
             return [f"{kind}:raise:{obs[1]}"]
+        if case["k"] == "b":
+            n = obs[1][0][0] if isinstance(obs[1][0][0], int) else -1
+            return [f"{kind}:ok", "long:len>=2^62" if n >= 2 ** 62 else "long:len>=2^32" if n >= 2 ** 32 else "long:len<2^32"]
         vals, n, gets, toks, back = obs[1]
         ks = [f"{kind}:ok", f"len={min(n, 8) if n < 8 else '8+'}", f"ranges={min(toks.count('M') + 1, 6)}"]
         if case["k"] == "l" and any(isinstance(v, str) for v in case["vs"]):
@@ -255,6 +412,8 @@ class C13(core.PropBase):
         return ks
 
     def spec_obs(self, case):
+        if case["k"] == "b":
+            return ["an expression with fewer than 2**63 values is an IntRangeExpr whose len / r[i] / str agree with the unbounded model; one with more is refused"]
         if case["k"] == "l":
             vs = sorted(set(int(v) for v in case["vs"]))
             return ["sorted distinct values; len; r[i] = values[i]", vs, len(vs)] if vs else ["empty list: outside the property"]
@@ -278,7 +437,9 @@ class C13(core.PropBase):
         parts = s.split(",")
         if len(parts) > 1:
             for i in range(len(parts)):
-                yield {"k": "s", "s": ",".join(parts[:i] + parts[i + 1:])}
+                yield {"k": case["k"], "s": ",".join(parts[:i] + parts[i + 1:])}
+        if case["k"] == "b":
+            return            # never hand a long expression to the enumerating requests
         for i in range(len(s)):
             t = s[:i] + s[i + 1:]
             if t == c08.cap_digits(t):
